@@ -118,6 +118,36 @@ func replayOnce(c *Ctx, rf *ReplayFile) (bool, string, error) {
 			}
 		}
 		return true, fmt.Sprintf("target %s: %v", rf.Target, clipList(diffs, 2)), nil
+	case "cli-c14-layout":
+		layout := fmt.Sprint(rf.Expect["layout"])
+		alone := map[string]*CLIOutcome{}
+		long := false
+		for _, a := range rf.CLI.Argv {
+			if a == "--file" {
+				long = true
+			}
+		}
+		sub := len(rf.CLI.Argv) > 0 && rf.CLI.Argv[0] == "compile"
+		abs := strings.Contains(strings.Join(rf.CLI.Argv, " "), "{SB}")
+		for _, u := range rf.History {
+			ou, err := c.sc.RunCLI(&CLIWorld{Argv: compileArgv([]string{u}, long, sub, abs), Disk0: rf.CLI.Disk0, Sched: s0()})
+			if err != nil {
+				return false, "", err
+			}
+			alone[u] = ou
+		}
+		ob, err := c.sc.RunCLI(rf.CLI)
+		if err != nil {
+			return false, "", err
+		}
+		if rf.Target == "*" {
+			return ob.Exit != 0, fmt.Sprintf("exit %d", ob.Exit), nil
+		}
+		d := layoutDiff(alone, ob, layoutDirs(layout, rf.History), rf.History, rf.Target)
+		if len(d) > 0 {
+			return true, fmt.Sprintf("target %s in layout %s: %v", rf.Target, layout, clipList(d, 2)), nil
+		}
+		return false, "every file of target " + rf.Target + " is present and identical in layout " + layout, nil
 	case "real-c13":
 		var first *CLIOutcome
 		for k := 0; k < 8; k++ {
